@@ -4,6 +4,7 @@ import (
 	"encoding/base64"
 	"fmt"
 	"strings"
+	"time"
 
 	"verif/sim"
 	"verif/world"
@@ -451,6 +452,73 @@ func cfg2FA(c *RunCtx, id string, unit int) (world.Cfg, *sim.Sim, bool) {
 	return cfg, s, true
 }
 
+// c02InterleavedValidate: two browsers, two accounts with the same second factor, both parked at the second
+// step. Browser 1 (the adversary, her own account) submits her own valid code and is suspended before each of
+// the backend calls of that request in turn; meanwhile browser 2 posts a wrong code for the victim's parked
+// login; browser 1 resumes. Whatever the two are told, browser 1's session never names the victim.
+func c02InterleavedValidate(c *RunCtx, unit int) {
+	kind := []string{"sms", "totp"}[(unit/6)%2]
+	cfg := world.Cfg{Modules: []string{"auth", "lock", "logout"}, TwoFA: []string{kind}, Mount: "/auth", JSON: (unit/12)%2 == 1, LockAfter: 5, LockWindow: 5 * time.Minute, LockDuration: time.Hour}
+	w, err := world.New(cfg, "c02-interleave")
+	if err != nil {
+		c.Stats.Inconclusive = append(c.Stats.Inconclusive, "world: "+err.Error())
+		return
+	}
+	pw := "Sh4red!passw"
+	secA, secV := "JBSWY3DPEHPK3PXPJBSWY3DPEHPK3PXP", "KRSXG5CTMVRXEZLUKRSXG5CTMVRXEZLU"
+	uA := &world.User{PID: "mallory@site.test", Email: "mallory@site.test", Password: sim.Hash4(pw), Confirmed: true}
+	uV := &world.User{PID: "victim@site.test", Email: "victim@site.test", Password: sim.Hash4(pw), Confirmed: true}
+	if kind == "sms" {
+		uA.SMSPhone, uV.SMSPhone = "+15550100", "+15550199"
+	} else {
+		uA.TOTPSecretKey, uV.TOTPSecretKey = secA, secV
+	}
+	w.Store.Put(uA)
+	w.Store.Put(uV)
+	b1, b2 := world.NewBrowser(1), world.NewBrowser(2)
+	w.Do(b1, world.Req{Method: "POST", Path: w.P("/login"), Form: map[string]string{"email": uA.PID, "password": pw}})
+	w.Do(b2, world.Req{Method: "POST", Path: w.P("/login"), Form: map[string]string{"email": uV.PID, "password": pw}})
+	codeA := sim.TOTPNow(secA)
+	if kind == "sms" {
+		codeA = ""
+		for _, m := range w.SMSs {
+			if m.Number == uA.SMSPhone {
+				codeA = m.Text
+			}
+		}
+	}
+	if w.Sess.Of(b1)[kind+"_pending"] != uA.PID || w.Sess.Of(b2)[kind+"_pending"] != uV.PID || codeA == "" {
+		c.Stats.Inconclusive = append(c.Stats.Inconclusive, "c02 interleave: the two logins did not park")
+		return
+	}
+	validate := w.P("/2fa/" + kind + "/validate")
+	base := w.SaveState()
+	for at := 0; at < 10; at++ {
+		w.LoadState(base)
+		x1, x2 := b1.Clone(), b2.Clone()
+		w.YieldedAt = nil
+		w.Yield = map[int]func(){at: func() {
+			w.Do(x2, world.Req{Method: "POST", Path: validate, Form: map[string]string{"code": "000000"}})
+		}}
+		w.Do(x1, world.Req{Method: "POST", Path: validate, Form: map[string]string{"code": codeA}})
+		w.Yield = nil
+		if len(w.YieldedAt) == 0 {
+			break
+		}
+		c.Stats.Evaluations++
+		c.Stats.Count("second-steps-interleaved")
+		got := w.Sess.Of(x1)["uid"]
+		c.Stats.Sig(fmt.Sprintf("interleaved-validate/%s/before-%s#%d/%s/uid=%v", kind, w.YieldedAt[0], at, modeOf(cfg), got != ""))
+		if got != "" && got != uA.PID {
+			v := vio("C02", kind+"-validate-code-not-of-that-account|interleaved-with-another-session", "browser 1 presented only the %s code of %q; while that request was suspended before its backend call #%d (%s) browser 2 posted a wrong code for %q's parked login; browser 1's session now names %q", kind, uA.PID, at, w.YieldedAt[0], uV.PID, got)
+			c.Stats.Violations = append(c.Stats.Violations, sim.VioRec{Violation: *v, Index: unit, Cfg: cfg.String(), History: []string{"b1: login mallory (parks)", "b2: login victim (parks)", "b1: validate own code — suspended", "b2: validate 000000", "b1 resumes"}})
+			w.LoadState(base)
+			return
+		}
+	}
+	w.LoadState(base)
+}
+
 // c02FaultProfile: a recovery code completes a login while a storage write of that request fails; the same
 // code is then presented again from another browser.
 var c02FaultProfile = &sim.Profile{
@@ -477,9 +545,12 @@ var c02FaultProfile = &sim.Profile{
 func init() {
 	register(&Check{
 		ID: "C02", Level: "exploration",
-		Rule:  "histories with an adversary who knows every password and owns accounts/phones: directed attack templates (two SMS logins in one session at gaps around the resend limit, cross-kind pending, recover-and-login, OTP login, enrolment-then-victim) interleaved with random noise, plus random walks; after every login-type request, a session that becomes a 2FA-enabled account must come from the matching validate endpoint with a TOTP code of ITS stored secret for the current 30-second period or one either side (the TOTP dependency is put on the virtual clock by the build overlay, so 'stale' probes sit exactly 2, 3, 10, 29, 31, 60 periods away), an SMS code the outbox shows was delivered to ITS registered number, or one of its unused recovery codes. Every third unit runs a second, directed history (its own PRNG): a recovery code completes a login while a storage write of that request fails, then the same code is presented again from another browser. distinct_nontrivial = distinct (flow, code class, account state, session state, mode, outcome) signatures on 2FA-enabled accounts.",
+		Rule:  "histories with an adversary who knows every password and owns accounts/phones: directed attack templates (two SMS logins in one session at gaps around the resend limit, cross-kind pending, recover-and-login, OTP login, enrolment-then-victim) interleaved with random noise, plus random walks; after every login-type request, a session that becomes a 2FA-enabled account must come from the matching validate endpoint with a TOTP code of ITS stored secret for the current 30-second period or one either side (the TOTP dependency is put on the virtual clock by the build overlay, so 'stale' probes sit exactly 2, 3, 10, 29, 31, 60 periods away), an SMS code the outbox shows was delivered to ITS registered number, or one of its unused recovery codes. Every third unit runs a second, directed history (its own PRNG): a recovery code completes a login while a storage write of that request fails, then the same code is presented again from another browser. Every 6th unit: two browsers parked at the second step of two accounts with the same factor; browser 1's validate request (its own valid code) is suspended before each of its backend calls while browser 2 posts a wrong code for the victim: browser 1's session never names the victim. distinct_nontrivial = distinct (flow, code class, account state, session state, mode, outcome) signatures on 2FA-enabled accounts.",
 		Units: func(t string) int { return tierN(t, 800, 25000) },
 		Run: func(c *RunCtx, unit int) {
+			if unit%6 == 5 {
+				c02InterleavedValidate(c, unit)
+			}
 			_, s, ok := cfg2FA(c, "C02", unit)
 			if !ok {
 				return
